@@ -15,14 +15,16 @@ RULE = ("shells with 1-4 primitives and 1-4 coefficient columns, l 0..4 (ERI: l 
 ASSUMPTIONS = ["relational comparisons use 1e-9 x the largest magnitude of the array (1e-6 for the repulsion array)"]
 
 
-def run_funcs(specs, env, names):
+def run_funcs(specs, env, names, transform=None):
     basis = make_basis(specs)
-    return {n: pf.FUNCS[n][0](basis, env) for n in names}
+    if transform is None:
+        return {n: pf.FUNCS[n][0](basis, env) for n in names}
+    return {n: pf.FUNCS[n][0](basis, env, transform=transform) for n in names}
 
 
-def compare_sets(run, kind, specs, specs2, env, names, signs=None, extra=None):
-    a = run_funcs(specs, env, names)
-    b = run_funcs(specs2, env, names)
+def compare_sets(run, kind, specs, specs2, env, names, signs=None, extra=None, transform=None):
+    a = run_funcs(specs, env, names, transform if signs is None else None)
+    b = run_funcs(specs2, env, names, transform if signs is None else None)
     ok = True
     for n in names:
         nax = pf.FUNCS[n][1]
@@ -51,6 +53,9 @@ def rewrites(run, rng, specs, k, env, names):
     # (a) generalized -> single-column shells
     singles = [s.copy(coeffs=s.coeffs[:, m:m + 1].copy()) for m in range(s.nseg)]
     ok &= compare_sets(run, "split-columns", specs, specs[:k] + singles + specs[k + 1:], env, names)
+    # the same with a rectangular transformation (the two descriptions have the same functions in the same order)
+    T = random_transform(rng, sum(x.size for x in specs), rect=True)
+    ok &= compare_sets(run, "split-columns, transformed", specs, specs[:k] + singles + specs[k + 1:], env, names, transform=T, extra=T.shape)
     # (b) permutations of the primitives
     perms = list(itertools.permutations(range(nprim)))[1:]
     if run.tier == "quick":
